@@ -1,5 +1,5 @@
 (* InputOrderSyn.v — (worker s2) the syntactic form of "a single event queue":
-   a session in which no command list (refresh / show_all / closed / input / signal callbacks, SIfCount branches
+   a session in which no command list (setup / refresh / show_all / closed / input / signal callbacks, SIfCount branches
    included, and the application's own actions) contains SPushModal, and which has no quit dialog (quit = None), never
    calls execute_new_loop: its trace has no ENewLoopEnter ([no_modal_no_nested]).  With proofs/InputOrder.v this gives
    the order of the delivered lines under a decidable hypothesis on the session ([lines_in_order_syn]).
@@ -21,7 +21,7 @@ Fixpoint scmd_nomodal (c : scmd) : bool :=
   end.
 Definition cmds_nomodal (l : list scmd) : bool := forallb scmd_nomodal l.
 Definition spec_nomodal (sp : screen_spec) : bool :=
-  cmds_nomodal (sc_refresh sp) && cmds_nomodal (sc_show sp) && cmds_nomodal (sc_closed sp) &&
+  cmds_nomodal (sc_setup_cmds sp) && cmds_nomodal (sc_refresh sp) && cmds_nomodal (sc_show sp) && cmds_nomodal (sc_closed sp) &&
   forallb (fun x => cmds_nomodal (fst (snd x))) (sc_input sp) && cmds_nomodal (fst (sc_input_default sp)) &&
   forallb cmds_nomodal (sc_custom sp).
 Definition no_modal_syntax (specl : list screen_spec) (quit : option nat) (acts : list saction) : bool :=
@@ -183,12 +183,14 @@ Section Syn.
     cmds_nomodal (sc_closed (specs scr)) = true /\
     (forall x, In x (sc_input (specs scr)) -> cmds_nomodal (fst (snd x)) = true) /\
     cmds_nomodal (fst (sc_input_default (specs scr))) = true /\
-    (forall l, In l (sc_custom (specs scr)) -> cmds_nomodal l = true).
+    (forall l, In l (sc_custom (specs scr)) -> cmds_nomodal l = true) /\
+    cmds_nomodal (sc_setup_cmds (specs scr)) = true.
   Proof.
     pose proof (Hnm scr) as H. unfold spec_nomodal in H.
     apply andb_true_iff in H. destruct H as [H H6]. apply andb_true_iff in H. destruct H as [H H5].
     apply andb_true_iff in H. destruct H as [H H4]. apply andb_true_iff in H. destruct H as [H H3].
-    apply andb_true_iff in H. destruct H as [H1 H2]. rewrite forallb_forall in H4, H6. repeat split; auto.
+    apply andb_true_iff in H. destruct H as [H1 H2]. apply andb_true_iff in H1. destruct H1 as [H0 H1].
+    rewrite forallb_forall in H4, H6. repeat split; auto.
   Qed.
 
   Lemma Safe3_call_closed d : Safe3 (call_closed specs d).
@@ -200,7 +202,12 @@ Section Syn.
   Lemma Safe3_run_cmds self cnt l : cmds_nomodal l = true -> Safe3 (run_cmds specs self cnt l).
   Proof. intros NM. unfold run_cmds. apply Safe3_do_scmds; [apply Safe3_close_screen|exact NM]. Qed.
   Lemma Safe3_call_setup d : Safe3 (call_setup specs d).
-  Proof. unfold call_setup. safe3. Qed.
+  Proof.
+    unfold call_setup. pose proof (proj2 (proj2 (proj2 (proj2 (proj2 (proj2 (nm_parts (sd_scr d)))))))) as NM.
+    destruct (sc_setup_cmds (specs (sd_scr d))) as [|c l]; [unfold call_setup_plain; safe3|].
+    unfold call_setup_cmds. apply S3_rd. intros u Pu. cbv zeta.
+    apply S3_seq; [safe3|]. apply S3_seq; [safe3|]. apply S3_seq; [apply Safe3_run_cmds; exact NM|]. safe3.
+  Qed.
   Lemma Safe3_call_refresh d : Safe3 (call_refresh specs d).
   Proof. unfold call_refresh. safe3. apply Safe3_run_cmds, nm_parts. Qed.
   Lemma Safe3_ask_pages scr k : Safe3 (ask_pages specs scr k).
@@ -242,7 +249,7 @@ Section Syn.
   Lemma Safe3_custom_handler k sg scr : Safe3 (custom_handler specs k sg scr).
   Proof.
     unfold custom_handler. safe3. apply Safe3_run_cmds.
-    destruct (nth_in_or_default k (sc_custom (specs scr)) []) as [I|E]; [apply (proj2 (proj2 (proj2 (proj2 (proj2 (nm_parts scr))))) _ I)|rewrite E; reflexivity].
+    destruct (nth_in_or_default k (sc_custom (specs scr)) []) as [I|E]; [apply (proj1 (proj2 (proj2 (proj2 (proj2 (proj2 (nm_parts scr)))))) _ I)|rewrite E; reflexivity].
   Qed.
   Lemma Safe3_input_received_handler sg : Safe3 (input_received_handler sg).
   Proof. unfold input_received_handler, emit_ready. safe3. Qed.
